@@ -8,7 +8,7 @@ META = dict(
     functions=['data_dump.DATADump.dump_msg', 'data_dump.DATADump.parse_hdr', 'data_dump.DATADumpFile._seek2msg', 'data_dump.DATADumpFile._parse_msg',
                'data_dump.DATADumpFile.parse_msg', 'data_dump.DATADumpFile.parse_all', 'data_dump.DATADumpFile.append_msg', 'data_dump.DATADumpFile.append_all',
                'data_msg.*.gen_msg / parse_msg (as in C01)'],
-    bounds=dict(sequences='every sequence of three reads (10 read operations: random access 0..3, full read, skip/count slices) through one reader object on a file of three messages; the same message object appended twice with all fields and burst bits rewritten in place in between', quick='sequences of 1..3 messages over the kinds {Tx v0 148, Tx v1 444, Rx v0 148, Rx v1 NOPE, Rx v1 GMSK} (all sequences of length <= 2, sampled of length 3), every field and bit symbolic; indices 0..len+1; skip in {None,0..len+1}, count in {None,1..len+1}; '
+    bounds=dict(sequences='every sequence of three reads (10 read operations: random access 0..3, full read, skip/count slices) through one reader object on a file of three messages; the same message object appended twice with all fields and burst bits rewritten in place in between', quick='sequences of 1..3 messages over the kinds {Tx v0 148, Tx v1 444, Rx v0 148, Rx v0 444, Rx v1 NOPE, Rx v1 GMSK} (all sequences of length <= 2, sampled of length 3), every field and bit symbolic; indices 0..len+1; skip in {None,0..len+1}, count in {None,1..len+1}; '
                       'truncation: every cut offset inside the record header, the TRXD header and at +-2 of each record boundary, plus every 25th offset',
                 thorough='all kinds incl. every modulation; all sequences of length <= 3; every byte offset as truncation point'),
     stubs=['file object proxy with io.BytesIO semantics (read/seek/write)', 'struct.pack/unpack', 'buffer proxies', 'logging'],
@@ -26,7 +26,7 @@ KINDS = {
     'rx116': ('rx', dict(ver=1, mod='Mod16QAM', nope=False)), 'rx132': ('rx', dict(ver=1, mod='Mod32QAM', nope=False)),
     'tx0e': ('tx', dict(ver=0, blen=444)), 'tx1': ('tx', dict(ver=1, blen=148)),
 }
-QUICK_KINDS = ['tx0', 'tx1e', 'rx0', 'rx1n', 'rx1g']
+QUICK_KINDS = ['tx0', 'tx1e', 'rx0', 'rx1n', 'rx1g', 'rx0e']
 
 
 def rec_len(kind):
